@@ -252,9 +252,11 @@ def run_value_pairs(rng, n, res: CaseResult, witness=False):
                 pairs.append(({'class': O, 'kwargs': {'a': x, 'b': f1}}, {'class': O, 'kwargs': {'a': x, 'b': f2}}, 'obj'))
                 pairs.append(({'class': O, 'kwargs': {'a': [{'class': O, 'kwargs': {'a': 1, 'b': f1}}]}}, {'class': O, 'kwargs': {'a': [{'class': O, 'kwargs': {'a': 1, 'b': f2}}]}}, 'obj'))
                 pairs.append(({'class': OS, 'kwargs': {'a': f1, 'limit': f2}}, {'class': OS, 'kwargs': {'a': f2, 'limit': f1}}, 'obj'))
-                res.count('object_value_pairs', 13)
+                pairs.append(({'class': O, 'kwargs': {'a': x, 'b': 3}}, {'class': O, 'kwargs': {'a': x, 'b': '3'}}, 'obj'))     # (b=3 is the default, left out of the text)
+                pairs.append(({'class': O, 'kwargs': {'a': [{'class': O, 'kwargs': {'a': 1}}]}}, {'class': O, 'kwargs': {'a': [{'class': O, 'kwargs': {'a': 1, 'b': '3'}}]}}, 'obj'))
+                res.count('object_value_pairs', 15)
                 res.count('falsy_object_argument_pairs', 3)
-        for a, b, mode in pairs[:n + 16]:
+        for a, b, mode in pairs[:n + 20]:
             if mode == 'dflt':
                 try:
                     k1, k2 = key_with_default(a[0], a[1], tmp), key_with_default(b[0], b[1], tmp)
